@@ -73,6 +73,7 @@ def _gen_rows(rng, cols, n):
 
 def gen_case(rng, tier, g):
     case = _gen_case(rng, tier, g)
+    case['fluent'] = rng.random() < 0.15
     # the host application's petl.config / logging set-up must not matter
     cfg = draw_config(rng, 0.12, exclude=('failonerror',))
     if cfg:
@@ -191,7 +192,13 @@ _SCHEMA = [None]
 _TNAME = ['t']
 
 
+_FLUENT = [False]
+
+
 def _load(e, op, src, dbo, commit):
+    if _FLUENT[0]:
+        from sim.loader import Fluent
+        e = Fluent(e)
     kw = {}
     if _SCHEMA[0] is not None:
         kw['schema'] = _SCHEMA[0]
@@ -454,6 +461,7 @@ def run_case(case):
     nruns = 0
     _SCHEMA[0] = case.get('schema')
     _TNAME[0] = case.get('tname', 't')
+    _FLUENT[0] = bool(case.get('fluent'))
     fired = {'source-raise': 0, 'malformed-row': 0}
     try:
         with devices.TempSandbox() as sb:
